@@ -60,7 +60,7 @@ REQUIRED_FEATURES = dict(
         "op:guarded": 200, "budget-exhausted": 100, "budget-exhausted-by:ctimeout": 5, "budget-exhausted-by:cerror": 5, "budget-exhausted-by:api": 5,
         "budget-exhausted-by:bulk": 5, "success-on-attempt-11": 5, "success-after-retries": 100, "fatal:auth": 50, "fatal:authz": 50, "fatal:api": 50,
         "fatal:transport": 50, "fatal:bulk-item": 50, "bulk-mixed-retryable-and-not": 20, "retry:bulk-item": 50, "retry:api": 100, "retry:ctimeout": 100,
-        "retry:cerror": 100, "partA-done": 1, "wire-cases": 100,
+        "retry:cerror": 100, "partA-done": 1, "wire-cases": 100, "wire:fault-on-product-check": 20,
     },
 )
 BUDGET = {
@@ -602,6 +602,8 @@ def one_case(ctx, env, target, kinds, tail, tag=None, layer="scripted"):
     feats = features_of(target, trace, final)
     if layer == "wire":
         feats = {"wire-cases"} | {f"wire:{x}" for x in feats if x.startswith("fatal") or x.startswith("budget-exhausted-by")}
+        if getattr(env.wire, "product_check_faults", 0):
+            feats.add("wire:fault-on-product-check")
     ctx.case((layer, target, consumed), len(trace.outcomes) >= 2 or (trace.outcomes and trace.outcomes[-1][0]), feats)
     ctx.distinct("outcome-sequences", consumed)
     if tag:
